@@ -96,6 +96,12 @@ def main():
     m = {"property": pid, "breaks": meta.get("summary"), "needs_to_manifest": meta.get("needs"),
          "why_suite_passes": meta.get("why_tests_pass"), "demo": {"package_dir": pkgdir, "file_name": meta["demo_file_name"], "run": run},
          "what_i_ran": rec}
+    try:  # keep the suite confirmation of an earlier run (tools/seed_suite.py) when a check is merely re-run
+        prev = json.load(open(os.path.join(d, "meta.json")))
+        if "suite" in prev.get("what_i_ran", {}) and "suite" not in rec:
+            rec["suite"] = prev["what_i_ran"]["suite"]
+    except Exception:
+        pass
     json.dump(m, open(os.path.join(d, "meta.json"), "w"), indent=1)
     print(json.dumps({k: rec.get(k) for k in ("demo_on_clean_tree", "applies_at_head", "builds", "demo_with_change", "suite_new_failures",
                                               "check_exit", "check_lines", "detected", "detected_with_concrete_replay")}, indent=1))
